@@ -50,7 +50,7 @@ def build_world(rng, w, n_states=1, calls_per_action=2, noise=True, name="dom", 
             nwhen, nuniv = count_groups(a) if isinstance(a["eff"], list) and a["eff"] and a["eff"][0] == "and" else (0, 0)
             limit = calls_per_action
             if hints and a["name"] == hints["focus"]:
-                limit = hints.get("calls", calls_per_action)
+                limit = hints.get("calls", calls_per_action if k == 0 or hints.get("random_only") else 1)
             try:
                 if hints and hints.get("distinct_calls"):
                     # a fluent atom that repeats an OBJECT collapses at grounding (D07, open, property C20): not C01's subject
@@ -158,7 +158,7 @@ def generate(rng, tier):
     worlds = []
     n_in = {"quick": 60, "thorough": 400}[tier]
     per_kind = {"quick": 2, "thorough": 8}[tier]
-    per_shape = {"quick": 1, "thorough": 3}[tier]
+    per_shape = {"quick": 1, "thorough": 2}[tier]
     for i in range(n_in):
         w = G.gen_world(rng, max_actions=3)
         worlds.append(build_world(rng, w, noise=2 if i % 4 == 3 else True))
@@ -175,15 +175,20 @@ def generate(rng, tier):
     shaped = {}
     keys = list(C.SHAPES)
     if tier == "quick":
-        # every shape whose second sibling differs in a far decimal; of the others one in three, a different third per seed
-        pick = rng.randrange(3)
-        keys = [k for i, k in enumerate(keys) if "far" in k or i % 3 == pick]
+        # of the shapes whose siblings differ in a far decimal every second one, of the others one in four, by seed
+        # (the 'far' shapes - look-alike siblings whose meanings differ - are planted in both text orders, see below)
+        pick, pick_far = rng.randrange(4), rng.randrange(2)
+        far = [k for k in keys if "far" in k]
+        keys = [k for i, k in enumerate(far) if i % 2 == pick_far] + \
+               [k for i, k in enumerate([k for k in keys if "far" not in k]) if i % 4 == pick]
     for key in keys:
         done, tries = 0, 0
-        while done < per_shape and tries < 50:
+        # the shapes that plant look-alikes whose meanings differ are planted in both text orders
+        want = 2 if "far" in key else per_shape
+        while done < want and tries < 50:
             tries += 1
             w = G.gen_world(rng, max_actions=2)
-            hints = C.shape(rng, w, key)
+            hints = C.shape(rng, w, key, order=done % 2 if want > 1 else None)
             if hints:
                 worlds.append(build_world(rng, w, noise=[False, True, 2][(done + len(shaped)) % 3], hints=hints))
                 done += 1
@@ -328,8 +333,9 @@ def run(args):
                    "type; sibling leaves that repeat / contradict; deep nesting; forall in when antecedents; constants in quantifier ranges (D30) and "
                    "before variables; binary functions, ternary predicates; equal operands; long numerals; shadowing, empty bodies, (= ?x ?x), "
                    "comparison forms - each probed on the action that carries the shape in 3 states chosen to separate the siblings (hinted facts all "
-                   "false / all true / random; fluent values between the two constants, shifted by EPSILON where the comparison is tolerant) x 2 calls "
-                   "(quick: every 'far' shape and a third of the others, by seed; thorough: 3 worlds per shape) + every domain file shipped under "
+                   "false / all true, or the regime under which the siblings' literals are neutral; fluent values between the two constants, shifted by "
+                   "EPSILON where the comparison is tolerant; then a random state), 4 calls "
+                   "(quick: half of the 'far' shapes, each in both text orders, and a quarter of the others, by seed; thorough: 2 worlds per shape) + every domain file shipped under "
                    "/repo/tests, once per distinct content (quick: up to 10 kB + one larger; vocabulary / raised compared, behaviour not probed). "
                    "Other parsed worlds are probed with 2-3 objects, one random state, two type-correct calls per action; units = vocabulary (parse), "
                    "applicability (app), successor (succ). productions = census of grammar productions over the generated texts. A unit is "
